@@ -15,7 +15,7 @@ Spec: spec/mech/CaseDB.tla (+ CaseDBMC.tla, CaseDBTrace.tla).  The SQLite file i
     with what the spec says for that boundary.  Thorough adds more runs and SIGKILL at random wall-clock times.
 
 Stand-alone reproduction of one crash point (no TLC):
-    PYTHONPATH=/verif/harness /venv/bin/python -m vf.drivers.c18 '<run spec as json>' <k>
+    PYTHONPATH=/verif/harness /venv/bin/python -m vf.drivers.c18 '<run spec as json>' <file label> <j>
 """
 import json
 import os
@@ -39,32 +39,32 @@ REQ = ('problem', 'driver', 'system', 'solver')
 # ------------------------------------------------------------------------------------------------------------
 # the recorded runs
 # ------------------------------------------------------------------------------------------------------------
-def mkrun(name, driver='doe', ncases=2, files=None, maxiter=3, solver='nlbgs', opts=None, final=True):
+def mkrun(name, driver='doe', ncases=2, files=None, maxiter=3, solver='nlbgs', opts=None, final=True, scope='all'):
     """files: requester -> file label (same label = same SqliteRecorder object)."""
     files = files if files is not None else {r: 'a' for r in REQ}
     return {'name': name, 'driver': driver, 'ncases': ncases, 'files': files, 'maxiter': maxiter, 'solver': solver,
-            'opts': opts or {}, 'final': final}
+            'opts': opts or {}, 'final': final, 'scope': scope}
 
 
-def quick_runs():
+def quick_runs(quick=True):
     return [
         # every requester on one file, DOE with 2 cases, 3 solver iterations per case, a final problem case
         mkrun('doe-all-onefile', 'doe', 2),
         # optimizer run with derivative rows (driver_derivatives has no global row), driver + problem on separate files
         mkrun('slsqp-driver-problem-twofiles', 'scipy', 2, {'driver': 'a', 'problem': 'b'},
-              opts={'driver': {'record_derivatives': True, 'record_inputs': True}}),
+              opts={'driver': {'record_derivatives': True, 'record_inputs': True}}, scope='cases' if quick else 'all'),
     ]
 
 
 def thorough_runs(rng):
-    runs = list(quick_runs())
+    runs = list(quick_runs(False))
     runs += [
         mkrun('doe-solver-only', 'doe', 3, {'solver': 'a'}),
         mkrun('doe-system-only', 'doe', 3, {'system': 'a'}, opts={'system': {'record_residuals': False}}),
         mkrun('doe-driver-only-derivs', 'doe', 3, {'driver': 'a'},
               opts={'driver': {'record_derivatives': True, 'record_residuals': True, 'record_inputs': True}}),
         mkrun('model-problem-only', 'model', 3, {'problem': 'a'}, opts={'problem': {'record_derivatives': True}}),
-        mkrun('model-system-solver', 'model', 2, {'system': 'a', 'solver': 'a'}, maxiter=4),
+        mkrun('model-system-solver', 'model', 1, {'system': 'a', 'solver': 'a'}, maxiter=4),
         mkrun('doe-four-files', 'doe', 2, {'problem': 'a', 'driver': 'b', 'system': 'c', 'solver': 'd'}),
         mkrun('newton-linesearch', 'doe', 2, {'driver': 'a', 'solver': 'a', 'linesearch': 'a'}, solver='newton', maxiter=2),
         mkrun('slsqp-all-onefile', 'scipy', 3, None, maxiter=2,
@@ -80,7 +80,10 @@ def thorough_runs(rng):
         files = {r: rng.choice(labels) for r in att}
         opts = {r: {'record_inputs': rng.random() < .5, 'record_residuals': rng.random() < .5}
                 for r in att if r in ('system', 'driver', 'problem')}
-        runs.append(mkrun('random-%d' % i, rng.choice(['doe', 'scipy', 'model']), rng.randrange(1, 4), files,
+        drv = rng.choice(['doe', 'scipy', 'model'])
+        # (iteration coordinates restart with every run_model call: system / solver case names would repeat)
+        n = 1 if drv == 'model' and ('system' in files or 'solver' in files) else rng.randrange(1, 4)
+        runs.append(mkrun('random-%d' % i, drv, n, files,
                           maxiter=rng.randrange(1, 4), opts=opts, final=rng.random() < .5))
     return runs
 
@@ -148,6 +151,8 @@ def abstract(stmt):
         return {'op': 'BEGIN', 't': '', 'rt': ''}
     if head == 'COMMIT':
         return {'op': 'COMMIT', 't': '', 'rt': ''}
+    if head == 'ROLLBACK':
+        return {'op': 'ROLLBACK', 't': '', 'rt': ''}
     if head == 'CREATE' and len(w) >= 3:
         return {'op': 'CREATE', 't': w[2].split('(')[0], 'rt': ''}
     if head == 'INSERT' and len(w) >= 3:
@@ -191,9 +196,11 @@ def install_proxy(on_stmt):
     sr.sqlite3 = proxy
 
 
-def child_main(run, workdir, k=0, log_live=False):
-    """Body of a child process: record `run` into workdir; die before statement k (k = 0: never; k > N: after the
-    last statement, before the recorder is shut down).  Never returns."""
+def child_main(run, workdir, at=None, log_live=False):
+    """Body of a child process: record `run` into workdir.  at = None: run to completion; at = [label, j]: die
+    immediately before the j-th statement of the connection to <label>.sql; at = ['', 0]: die after the last statement,
+    before the recorder is shut down.  (With several files the interleaving of the connections' statements depends on
+    the iteration order of a set of recorder objects, so boundaries are addressed per file.)  Never returns."""
     code = 3
     try:
         sys.stdout.flush()
@@ -205,26 +212,28 @@ def child_main(run, workdir, k=0, log_live=False):
         os.makedirs(workdir, exist_ok=True)
         os.environ['OPENMDAO_WORKDIR'] = workdir
         events = []
+        count = {}
         live = os.open(os.path.join(workdir, 'live.log'), os.O_WRONLY | os.O_CREAT | os.O_APPEND) if log_live else None
 
         def die():
-            with open(os.path.join(workdir, 'events.json'), 'w') as f:
-                json.dump(events, f)
-                f.flush()
-                os.fsync(f.fileno())
-            os._exit(9)
+            try:        # (sqlite3 swallows exceptions raised inside a trace callback: never leave this function)
+                with open(os.path.join(workdir, 'events.json'), 'w') as f:
+                    json.dump(events, f)
+            finally:
+                os._exit(9)
 
         def on_stmt(label, sql):
-            if k and len(events) + 1 == k:
+            count[label] = count.get(label, 0) + 1
+            if at and at[0] == label and count[label] == at[1]:
                 die()
             e = abstract(sql)
             e['f'] = label
             events.append(e)
             if live is not None:
-                os.write(live, b'%d %.6f\n' % (len(events), time.time()))
+                os.write(live, ('%s %d %.6f\n' % (label, count[label], time.time())).encode())
 
         install_proxy(on_stmt)
-        build_and_run(run, workdir, before_cleanup=die if k else None)
+        build_and_run(run, workdir, before_cleanup=die if at else None)
         with open(os.path.join(workdir, 'events.json'), 'w') as f:
             json.dump(events, f)
         code = 0
@@ -238,11 +247,11 @@ def child_main(run, workdir, k=0, log_live=False):
         os._exit(code)
 
 
-def spawn(run, workdir, k=0, log_live=False):
+def spawn(run, workdir, at=None, log_live=False):
     sys.stdout.flush()
     pid = os.fork()
     if pid == 0:
-        child_main(run, workdir, k, log_live)
+        child_main(run, workdir, at, log_live)
     return pid
 
 
@@ -278,7 +287,7 @@ def case_data(c):
 
 
 def raw_rows(path):
-    """Committed rows straight from the file: {table: [ids]}, [(record_type, rowid)]."""
+    """Committed rows straight from the file: {table: [ids]}, [(record_type, rowid)], [coordinates of derivative rows]."""
     import sqlite3
     con = sqlite3.connect('file:%s?mode=ro' % path, uri=True)
     try:
@@ -286,9 +295,11 @@ def raw_rows(path):
         rows = {t: [r[0] for r in con.execute('SELECT id FROM %s ORDER BY id' % t)] for t in RT2TABLE.values() if t in have}
         glob = [(RT2TABLE.get(r[0], r[0]), r[1]) for r in con.execute('SELECT record_type, rowid FROM global_iterations ORDER BY id')] \
             if 'global_iterations' in have else []
+        derivs = [r[0] for r in con.execute('SELECT iteration_coordinate FROM driver_derivatives ORDER BY id')] \
+            if 'driver_derivatives' in have else []
     finally:
         con.close()
-    return rows, glob
+    return rows, glob, derivs
 
 
 def read_file(path, with_cases=True):
@@ -310,7 +321,7 @@ def read_file(path, with_cases=True):
     except Exception as e:
         out['read_error'] = '%s: %s\n%s' % (type(e).__name__, str(e)[:200], traceback.format_exc()[-600:])
     try:
-        out['rows'], out['glob'] = raw_rows(path)
+        out['rows'], out['glob'], out['derivs'] = raw_rows(path)
     except Exception as e:
         out['read_error'] = out.get('read_error', '') + ' raw: %s: %s' % (type(e).__name__, e)
     return out
@@ -335,7 +346,8 @@ def same(a, b):
 def judge_file(ref, obs, got, exact=True):
     """ref: reference read of the complete file; obs: spec observation at the boundary [started, mark, ncases] (or a
     list of admissible observations for a kill at an unknown point between two boundaries); got: read of the crashed
-    file.  Returns (bucket, clause or None, detail)."""
+    file.  Returns (bucket, clause or None, detail); bucket 'post+torn-derivs' = held, and the last driver case is listed
+    while its driver_derivatives row (a separate record written later in its own transaction) is not yet durable."""
     obss = obs if isinstance(obs, list) else [obs]
     if not all(o['started'] for o in obss):
         return ('pre-startup-' + ('opens' if got['open'] else 'fails'), None, got.get('error'))
@@ -362,11 +374,25 @@ def judge_file(ref, obs, got, exact=True):
     pairs = sorted((t, i) for t in rows for i in rows[t])
     if sorted(glob) != pairs or len(set(glob)) != len(glob):
         return ('post', 'case rows and global_iterations rows are not one-to-one', {'case_rows': pairs, 'global_rows': glob})
+    # derivative rows (own table, own transaction, no global row): exactly the committed ones, in order
+    if got['derivs'] != ref['derivs'][:len(got['derivs'])] or len(got['derivs']) not in [o['nderivs'] for o in obss]:
+        return ('post', 'the driver_derivatives rows are not exactly the committed ones',
+                {'got': got['derivs'], 'full': ref['derivs'], 'committed': [o['nderivs'] for o in obss]})
+    torn = False
     for n in lst:
-        if not same(got['cases'][n], ref['cases'][n]):
+        g, r = dict(got['cases'][n]), dict(ref['cases'][n])
+        gd, rd = g.pop('derivatives'), r.pop('derivatives')
+        if not same(g, r):
             return ('post', 'a listed case differs from the same case of the complete run',
                     {'case': n, 'got': got['cases'][n], 'ref': ref['cases'][n]})
-    return ('post', None, None)
+        if not same(gd, rd):
+            # the derivatives of a driver case are a separate record: absent is admissible iff that record is not durable
+            if gd is None and g['source'] == 'driver' and n not in got['derivs'] and n in ref['derivs']:
+                torn = True
+            else:
+                return ('post', 'the derivatives of a listed case differ from those of the complete run',
+                        {'case': n, 'got': gd, 'ref': rd})
+    return ('post+torn-derivs' if torn else 'post', None, None)
 
 
 _REF = {}      # run name -> reference (set in the parent before the pool forks)
@@ -376,37 +402,46 @@ def _labels(run):
     return sorted(set(run['files'].values()))
 
 
-def crash_point(run, ref, k, workdir):
-    """Run the recording, die before statement k, judge every file.  -> result record."""
-    pid = spawn(run, workdir, k)
+def per_file(events, lab):
+    return [{'op': e['op'], 't': e['t'], 'rt': e['rt']} for e in events if e['f'] == lab]
+
+
+def crash_point(run, ref, at, workdir):
+    """Run the recording, die at boundary `at` = [label, j], judge every file.  -> result record."""
+    pid = spawn(run, workdir, at)
     wait(pid, workdir, (9,))
-    with open(os.path.join(workdir, 'events.json')) as f:
-        ev = json.load(f)
-    if ev != ref['events'][:k - 1]:
-        raise MachineryError('run %s is not deterministic: statement stream before boundary %d differs from the reference'
-                             % (run['name'], k))
-    res = {'k': k, 'files': {}}
+    try:
+        with open(os.path.join(workdir, 'events.json')) as f:
+            ev = json.load(f)
+    except (OSError, ValueError) as e:
+        raise MachineryError('child at %r of run %s left no statement log (%s); directory holds %r'
+                             % (at, run['name'], e, os.listdir(workdir) if os.path.isdir(workdir) else None))
+    res = {'at': at, 'files': {}}
     for lab in _labels(run):
-        j = sum(1 for e in ref['events'][:k - 1] if e['f'] == lab)        # statements of this file already executed
+        mine = per_file(ev, lab)
+        j = len(mine)                                                     # statements of this file already executed
+        if mine != ref['stream'][lab][:j] or (at[0] == lab and j != at[1] - 1) or (at[0] == '' and j != len(ref['stream'][lab])):
+            raise MachineryError('run %s is not deterministic: statement stream of file %s before boundary %r differs from '
+                                 'the reference' % (run['name'], lab, at))
         obs = ref['hist'][lab][j]                                         # spec: state before this file's statement j+1
         got = read_file(os.path.join(workdir, lab + '.sql'))
         bucket, clause, detail = judge_file(ref['read'][lab], obs, got)
-        res['files'][lab] = {'obs': obs, 'bucket': bucket, 'clause': clause, 'detail': detail,
+        res['files'][lab] = {'j': j + 1, 'obs': obs, 'bucket': bucket, 'clause': clause, 'detail': detail,
                              'ncases': len(got.get('list', [])) if got['open'] else None}
     return res
 
 
 def _points_worker(job):
     quiet()
-    name, ks, base = job
+    name, ats, base = job
     run, ref = _REF[name]['run'], _REF[name]
     out = []
-    for k in ks:
-        wd = os.path.join(base, '%s-k%d' % (name, k))
+    for at in ats:
+        wd = os.path.join(base, '%s-%s%d' % (name, at[0], at[1]))
         try:
-            out.append(crash_point(run, ref, k, wd))
+            out.append(crash_point(run, ref, at, wd))
         except MachineryError as e:
-            out.append({'k': k, 'machinery': str(e)})
+            out.append({'at': at, 'machinery': str(e)})
         _rm(wd)
     return name, out
 
@@ -418,7 +453,7 @@ def _rm(d):
 
 def kill_point(run, ref, delay, workdir):
     """SIGKILL the recording child after `delay` seconds."""
-    pid = spawn(run, workdir, 0, log_live=True)
+    pid = spawn(run, workdir, None, log_live=True)
     time.sleep(delay)
     try:
         os.kill(pid, signal.SIGKILL)
@@ -429,17 +464,24 @@ def kill_point(run, ref, delay, workdir):
     if not killed and os.WEXITSTATUS(st) != 0:
         raise MachineryError('kill child ended with %r' % (st,))
     try:
-        n = sum(1 for _ in open(os.path.join(workdir, 'live.log')))       # callbacks entered: statements 1..n-1 are done
+        lines = [ln.split() for ln in open(os.path.join(workdir, 'live.log')) if ln.endswith('\n') and len(ln.split()) == 3]
     except OSError:
-        n = 0
-    res = {'delay': delay, 'killed': killed, 'n': n, 'files': {}}
+        lines = []
+    # callbacks entered per file; only the very last statement begun may or may not have been executed
+    begun = {}
+    for ln in lines:
+        begun[ln[0]] = int(ln[1])
+    last = lines[-1][0] if lines else None
+    res = {'delay': delay, 'killed': killed, 'n': len(lines), 'files': {}}
     for lab in _labels(run):
-        evs = ref['events']
+        n = begun.get(lab, 0)
         if not killed:
-            j0 = j1 = sum(1 for e in evs if e['f'] == lab)
+            j0 = j1 = len(ref['stream'][lab])
+            if n != j0:
+                raise MachineryError('completed kill-run logged %d statements for %s, reference %d' % (n, lab, j0))
         else:
-            j0 = sum(1 for e in evs[:max(n - 1, 0)] if e['f'] == lab)     # statement n itself may or may not have run
-            j1 = sum(1 for e in evs[:n] if e['f'] == lab)
+            j1 = n
+            j0 = max(n - 1, 0) if lab == last else n
         obs = [ref['hist'][lab][j0], ref['hist'][lab][j1]]
         got = read_file(os.path.join(workdir, lab + '.sql'))
         bucket, clause, detail = judge_file(ref['read'][lab], obs, got)
@@ -467,13 +509,13 @@ def reference(run, base):
     """Uncrashed run in a child with the logging proxy: statement stream + what CaseReader reads."""
     wd = os.path.join(base, 'ref-' + run['name'])
     t0 = time.time()
-    pid = spawn(run, wd, 0, log_live=True)
+    pid = spawn(run, wd, None, log_live=True)
     wait(pid, wd, (0,))
     dur = time.time() - t0
     with open(os.path.join(wd, 'events.json')) as f:
         ev = json.load(f)
-    times = [float(line.split()[1]) for line in open(os.path.join(wd, 'live.log'))]
-    ref = {'run': run, 'events': ev, 'read': {}, 'dur': dur, 't_first': times[0] - t0 if times else dur,
+    times = [float(line.split()[2]) for line in open(os.path.join(wd, 'live.log'))]
+    ref = {'run': run, 'events': ev, 'stream': {lab: per_file(ev, lab) for lab in _labels(run)}, 'read': {}, 'dur': dur, 't_first': times[0] - t0 if times else dur,
            't_last': times[-1] - t0 if times else dur}
     for e in ev:
         if e['op'] == 'OTHER' or e['rt'] == 'unparsed':
@@ -488,8 +530,8 @@ def reference(run, base):
     return ref
 
 
-SNIPPET = '''# stand-alone reproduction (no TLC): dies before statement %(k)d of the recording and reads the file back
-PYTHONPATH=/verif/harness OPENMDAO_REPORTS=0 /venv/bin/python -m vf.drivers.c18 '%(run)s' %(k)d
+SNIPPET = '''# stand-alone reproduction (no TLC): dies before statement %(j)d of file "%(lab)s" and reads the files back
+PYTHONPATH=/verif/harness OPENMDAO_REPORTS=0 /venv/bin/python -m vf.drivers.c18 '%(run)s' '%(lab)s' %(j)d
 '''
 
 
@@ -498,7 +540,7 @@ def validate_streams(ctx, refs):
     traces, index = [], []
     for ref in refs:
         for lab in _labels(ref['run']):
-            ev = [{'op': e['op'], 't': e['t'], 'rt': e['rt']} for e in ref['events'] if e['f'] == lab]
+            ev = ref['stream'][lab]
             lst = ref['read'][lab]
             # reference order by table, from the reader's own list: the k-th listed case is the k-th global row
             tables = [t for t, _ in lst['glob']]
@@ -518,35 +560,41 @@ def validate_streams(ctx, refs):
         e = v[i + 1]
         ev = traces[i]['ev']
         nev += len(ev)
-        if e['v'] != 'accepted':
-            bad = ev[e['l'] - 2] if 2 <= e['l'] <= len(ev) + 1 else None
-            ctx.violation({'run': ref['run'], 'file': lab, 'stream_prefix': ev[:e['l'] - 1][-12:]},
-                          'statement stream accepted by CaseDBTrace.tla (every case row and its global_iterations row in one '
-                          'BEGIN..COMMIT)', {'verdict': e['v'], 'statement': bad, 'position': e['l'] - 1},
-                          'observed statement stream leaves the transaction structure of CaseDB: %s' % e['v'],
-                          info={'kind': 'stream', 'verdict': e['v']})
-            ref.setdefault('hist', {})[lab] = None
-            continue
+        if e['v'] == 'stuck-sqlite-would-raise':
+            raise MachineryError('CaseDBTrace cannot follow the stream SQLite executed (run %s, file %s, statement %d: %r)'
+                                 % (ref['run']['name'], lab, e['l'] - 1, ev[e['l'] - 2]))
         if len(e['hist']) != len(ev) + 1:
             raise MachineryError('observation history has %d entries for %d statements' % (len(e['hist']), len(ev)))
         ref.setdefault('hist', {})[lab] = e['hist']
+        ref.setdefault('verdict', {})[lab] = e['v']
+        if e['v'] != 'accepted':
+            at = e['at']
+            ctx.violation({'run': ref['run'], 'file': lab, 'statement_number': at,
+                           'statements_before': ev[max(0, at - 6):at - 1] if at else ev[-6:]},
+                          'statement stream accepted by CaseDBTrace.tla (every case row and its global_iterations row in one '
+                          'BEGIN..COMMIT, the reader\'s case order = commit order)',
+                          {'verdict': e['v'], 'statement': ev[at - 1] if at else 'end of stream'},
+                          'observed statement stream leaves the transaction structure of CaseDB: %s' % e['v'],
+                          info={'kind': 'stream', 'verdict': e['v']})
     return len(traces), nev
 
 
-def tlc_part(ctx):
+def tlc_part(ctx, quick):
     head = 'CONSTANTS\n  Scripts <- %s\n  Broken = %s\nINIT Init\nNEXT Next\n'
     cfg = ctx.write_cfg('CaseDBMC.cfg', head % ('AllScripts', 'FALSE') +
                         'INVARIANT Executable\nINVARIANT Atomicity\nINVARIANT CrashPrefix\nINVARIANT CompleteRun\n'
                         'INVARIANT StartedOpens\n')
     r = ctx.tlc_check('mech/CaseDBMC', cfg, timeout=1500, workers=TLC_WORKERS)
     ctx.require_actions(['CreateTables', 'Begin', 'InsertMetaStub', 'UpdateMeta', 'InsertMetaRow', 'InsertCase',
-                         'InsertGlobal', 'InsertDeriv', 'Commit', 'Crash', 'Open'])
+                         'InsertGlobal', 'InsertDeriv', 'Commit', 'Rollback', 'Crash', 'Open'])
     ctx.extra['tlc_casedb'] = {'distinct_states': r.distinct, 'generated': r.generated, 'depth': r.depth}
     # non-vacuity: TLC must refute the broken variant and the two pre-startup non-theorems
     expect = [('broken', 'SmallScripts', 'TRUE', ['Atomicity', 'CrashPrefix'], 'INVARIANT Executable\nINVARIANT Atomicity\n'),
               ('broken-crashprefix', 'SmallScripts', 'TRUE', ['CrashPrefix'], 'INVARIANT Executable\nINVARIANT CrashPrefix\n'),
               ('pre-startup', 'SmallScripts', 'FALSE', ['PreStartupOpens'], 'INVARIANT PreStartupOpens\n'),
               ('stub-window', 'SmallScripts', 'FALSE', ['StubWindowOpens'], 'INVARIANT StubWindowOpens\n')]
+    if quick:       # quick: the crash property on the broken variant + the narrow pre-startup window
+        expect = [expect[1], expect[3]]
     refuted = {}
     for name, scripts, broken, invs, body in expect:
         cfg = ctx.write_cfg('CaseDBMC_%s.cfg' % name, head % (scripts, broken) + body)
@@ -570,28 +618,52 @@ def run(ctx):
     if getattr(ctx, 'replay', None):
         with open(ctx.replay) as f:
             sc = json.load(f)['scenario']
-        runs, only_k = [sc['run']], sc.get('k')
+        runs, only_at = [sc['run']], sc.get('at')
     else:
-        runs, only_k = (quick_runs() if quick else thorough_runs(rng)), None
+        runs, only_at = (quick_runs() if quick else thorough_runs(rng)), None
 
     # (a) the design
-    tlc_part(ctx)
+    tlc_part(ctx, quick)
+
+    # warm the parent (lazy imports, scipy) with one plain, unpatched recording so that forked children start fast
+    os.makedirs(os.path.join(base, 'warm'))
+    import contextlib
+    import io
+    with contextlib.redirect_stdout(io.StringIO()):
+        build_and_run(mkrun('warm', 'scipy', 1), os.path.join(base, 'warm'))
+    _rm(os.path.join(base, 'warm'))
+    # everything imported so far is shared copy-on-write with the children: keep the cyclic GC from touching (and so
+    # copying) those pages in every child (SqliteRecorder.shutdown calls gc.collect())
+    import gc
+    gc.collect()
+    gc.freeze()
 
     # (b) reference runs (uncrashed, in children) + validation of their statement streams
     refs = [reference(r, base) for r in runs]
     ntr, nev = validate_streams(ctx, refs)
     ctx.extra['streams_validated'] = ntr
     ctx.extra['statements_validated'] = nev
-    usable = [ref for ref in refs if all(ref['hist'][lab] is not None for lab in _labels(ref['run']))]
+    usable = refs
     for ref in usable:
         _REF[ref['run']['name']] = ref
 
-    # (c) crash enumeration: every statement boundary 1..N and N+1 (after the last statement, before shutdown)
+    # (c) crash enumeration: every statement boundary of every file (before statement 1..N_file), and the end of the
+    # run (after the last statement, before shutdown)
     jobs = []
     for ref in usable:
-        n = len(ref['events'])
-        ks = [only_k] if only_k else list(range(1, n + 2))
-        jobs += [(ref['run']['name'], c, base) for c in split(ks, max(1, min(PAR * 2, len(ks) // 4 or 1))) if c]
+        ats = []
+        for lab in _labels(ref['run']):
+            h = ref['hist'][lab]
+            first = 1
+            if ref['run'].get('scope') == 'cases':     # quick tier, second run: from just before the first case transaction
+                rec = [i + 1 for i, e in enumerate(ref['stream'][lab])
+                       if e['op'] == 'INSERT' and (e['t'] in RT2TABLE.values() or e['t'] == 'driver_derivatives')]
+                first = max(1, min(rec or [1]) - 3)
+            ats += [[lab, j] for j in range(first, len(ref['stream'][lab]) + 1)]
+        ats.append(['', 0])
+        if only_at:
+            ats = [only_at]
+        jobs += [(ref['run']['name'], c, base) for c in split(ats, max(1, min(PAR * 2, len(ats) // 4 or 1))) if c]
     rng.shuffle(jobs)
     t0 = time.time()
     results = pmap(_points_worker, jobs, nproc=PAR)
@@ -601,8 +673,9 @@ def run(ctx):
     per_run = {}
     for name, out in results:
         ref = _REF[name]
-        pr = per_run.setdefault(name, {'statements': len(ref['events']), 'crash_points': 0, 'post_startup': 0,
-                                       'pre_startup_fail_to_open': 0, 'cases_complete_run': {l: len(ref['read'][l]['list']) for l in ref['read']},
+        pr = per_run.setdefault(name, {'statements': {l: len(ref['stream'][l]) for l in ref['stream']}, 'crash_points': 0,
+                                       'file_states_post_startup': 0, 'file_states_pre_startup_fail_to_open': 0,
+                                       'cases_complete_run': {l: len(ref['read'][l]['list']) for l in ref['read']},
                                        'prefix_lengths_seen': set()})
         for res in out:
             if 'machinery' in res:
@@ -612,30 +685,33 @@ def run(ctx):
             for lab, fr in res['files'].items():
                 stats[fr['bucket']] += 1
                 if fr['bucket'] == 'post':
-                    pr['post_startup'] += 1
+                    pr['file_states_post_startup'] += 1
                     if fr['ncases'] is not None:
                         pr['prefix_lengths_seen'].add(fr['ncases'])
                     if fr['obs']['mark'] >= 1:
-                        stats['inside_transaction'] += 1
-                        ctx.note_nontrivial('%s/%s/k=%d' % (name, lab, res['k']))
-                    if fr['obs']['mark'] == 2:
-                        stats['between_case_and_global'] += 1
+                        key = '%s/%s/before-statement-%d' % (name, lab, fr['j'])
+                        if key not in ctx.nontrivial:
+                            stats['inside_transaction'] += 1
+                            stats['between_case_and_global'] += fr['obs']['mark'] == 2
+                        ctx.note_nontrivial(key)
                 elif fr['bucket'] == 'pre-startup-fails':
-                    pr['pre_startup_fail_to_open'] += 1
+                    pr['file_states_pre_startup_fail_to_open'] += 1
                 if fr['clause']:
-                    ctx.violation({'run': ref['run'], 'k': res['k'], 'file': lab,
-                                   'statement': ref['events'][res['k'] - 1] if res['k'] <= len(ref['events']) else 'end of run'},
+                    stream = ref['stream'][lab]
+                    ctx.violation({'run': ref['run'], 'at': res['at'], 'file': lab, 'file_boundary': fr['j'],
+                                   'next_statement_of_file': stream[fr['j'] - 1] if fr['j'] <= len(stream) else 'end of run',
+                                   'previous_statements_of_file': stream[max(0, fr['j'] - 4):fr['j'] - 1]},
                                   {'spec_observation_at_boundary': fr['obs'],
                                    'prefix_of': ref['read'][lab]['list']},
                                   fr['detail'], fr['clause'],
-                                  snippet=SNIPPET % {'k': res['k'], 'run': json.dumps(ref['run'])},
+                                  snippet=SNIPPET % {'lab': res['at'][0], 'j': res['at'][1], 'run': json.dumps(ref['run'])},
                                   info={'kind': 'crash', 'clause': fr['clause'], 'obs': fr['obs']})
     for pr in per_run.values():
         pr['prefix_lengths_seen'] = sorted(pr['prefix_lengths_seen'])
 
     # thorough: SIGKILL at random wall-clock times
     kills = {'n': 0, 'killed_mid_run': 0, 'finished_before_kill': 0, 'pre_startup': 0, 'post_startup': 0}
-    if not quick and not only_k:
+    if not quick and not only_at:
         kjobs = []
         nk = 0
         for ref in usable:
@@ -704,13 +780,13 @@ if __name__ == '__main__':
     import shutil
     import tempfile
     run_ = json.loads(sys.argv[1])
-    k_ = int(sys.argv[2])
+    at_ = [sys.argv[2], int(sys.argv[3])]
     import openmdao.api  # noqa: F401
     quiet()
     d = tempfile.mkdtemp(prefix='c18-', dir=os.environ.get('OPENMDAO_WORKDIR') or None)
     try:
-        wait(spawn(run_, os.path.join(d, 'ref'), 0), os.path.join(d, 'ref'), (0,))
-        wait(spawn(run_, os.path.join(d, 'crash'), k_), os.path.join(d, 'crash'), (9,))
+        wait(spawn(run_, os.path.join(d, 'ref'), None), os.path.join(d, 'ref'), (0,))
+        wait(spawn(run_, os.path.join(d, 'crash'), at_), os.path.join(d, 'crash'), (9,))
         ev_ = json.load(open(os.path.join(d, 'crash', 'events.json')))
         print('statements executed before the crash: %d; last: %r' % (len(ev_), ev_[-3:]))
         for lab_ in _labels(run_):
